@@ -72,9 +72,13 @@ TOut ==
   /\ (IF Rec[l].kind = "bestmove" /\ due # <<>> /\ "BOOK" \in DOMAIN IOEnv
       THEN LET k == BookKey(due[1].p) IN
            \* (whether the front end consults the book at all is its own choice; only what the book answered is judged)
-           IF fromBook THEN Diag("C16", k \in DOMAIN BookRel /\ Concat(Rec[l].mv) \in ToSetOf(BookRel[k]),
-                                     [kind |-> "move answered from the opening book was not played from this position in the game files", pos |-> ToFen(due[1].p), mv |-> Concat(Rec[l].mv), session |-> sess.id])
-           ELSE TRUE
+           \* a position of the game files: only moves played there; any other position: nothing or a legal move
+           IF ~fromBook THEN TRUE
+           ELSE IF k \in DOMAIN BookRel
+                THEN Diag("C16", Concat(Rec[l].mv) \in ToSetOf(BookRel[k]),
+                          [kind |-> "move answered from the opening book was not played from this position in the game files", pos |-> ToFen(due[1].p), mv |-> Concat(Rec[l].mv), session |-> sess.id])
+                ELSE Diag("C16", Concat(Rec[l].mv) \in { Lan(m) : m \in Legal(due[1].p) },
+                          [kind |-> "move answered from the opening book is not legal in this position (reached by another history)", pos |-> ToFen(due[1].p), mv |-> Concat(Rec[l].mv), session |-> sess.id])
       ELSE TRUE)
   /\ LET e == Rec[l] IN
      CASE e.kind = "bestmove" ->
